@@ -18,7 +18,8 @@
 (***************************************************************************)
 EXTENDS TLC, Json, Sequences, Integers, FiniteSets
 
-CONSTANTS FileIds, MaxRoot, MaxOther
+CONSTANTS FileIds, MaxRoot, MaxOther,
+          Variant      \* "graphs": include graphs;  "contexts": explicit / implicit contexts across the file boundary
 
 Names == [a |-> "a.jst", b |-> "b.jst", c |-> "c.jst", root |-> "root.jst", missing |-> "missing.jst",
           dir |-> "sub", up |-> "..", abs |-> "/a.jst", bs |-> "x\\y.jst", empty |-> ""]
@@ -38,10 +39,17 @@ D(k, p, e) == [t |-> "D", k |-> k, p |-> p, a |-> "", e |-> e, b |-> "", c |-> "
 Inc1(n) == [t |-> "I", k |-> "INCLUDE", p |-> <<n>>, a |-> "", e |-> FALSE, b |-> "", c |-> ""]
 CloseTok == [t |-> "C", k |-> ")", p |-> <<>>, a |-> "", e |-> FALSE, b |-> "", c |-> ""]
 
-Menu == { D("TYPE", <<"@t1", "any">>, FALSE), D("Body", <<"any">>, FALSE), D("URL", <<"pa">>, TRUE), CloseTok,
-          Inc1("a.jst"), Inc1("b.jst"), Inc1("root.jst"), Inc1("missing.jst") }
-        \cup (IF "c.jst" \in FileIds THEN {Inc1("c.jst")} ELSE {})
-RareMenu == { Inc1("sub"), Inc1(".."), Inc1("/a.jst"), Inc1("x\\y.jst"), Inc1(""),
+GraphMenu == { D("TYPE", <<"@t1", "any">>, FALSE), D("Body", <<"any">>, FALSE), D("URL", <<"pa">>, TRUE), CloseTok,
+               Inc1("a.jst"), Inc1("b.jst"), Inc1("root.jst"), Inc1("missing.jst") }
+             \cup (IF "c.jst" \in FileIds THEN {Inc1("c.jst")} ELSE {})
+\* contexts across files: an explicit context opened by the includer, implicit contexts and methods with their
+\* own path inside the included file (the new-root rule must not leave the includer's explicit context)
+CtxRootMenu == { D("MACRO", <<"@m1">>, TRUE), D("URL", <<"pa">>, TRUE), D("URL", <<"pa">>, FALSE), CloseTok, Inc1("a.jst"), D("GET", <<"pb">>, FALSE) }
+CtxOtherMenu == { D("URL", <<"pa">>, FALSE), D("URL", <<"pai">>, TRUE), D("GET", <<"pb">>, FALSE), D("GET", <<>>, FALSE), D("RESP", <<"any">>, FALSE), CloseTok, Inc1("b.jst") }
+Menu == IF Variant = "graphs" THEN GraphMenu ELSE CtxRootMenu
+OtherMenu == IF Variant = "graphs" THEN GraphMenu ELSE CtxOtherMenu
+RareMenu == IF Variant # "graphs" THEN {} ELSE
+            { Inc1("sub"), Inc1(".."), Inc1("/a.jst"), Inc1("x\\y.jst"), Inc1(""),
               [Inc1("a.jst") EXCEPT !.p = <<"a.jst", "extra">>], [Inc1("a.jst") EXCEPT !.a = "note"],
               [Inc1("a.jst") EXCEPT !.p = <<>>] }
 
@@ -56,7 +64,7 @@ Init == /\ S = I!InitInc
               content = [f \in FileIds |-> IF f = "root.jst" THEN r ELSE <<>>]
 
 Choose == /\ S.res = "run" /\ S.cur.f \notin chosen
-          /\ \E r \in SeqsUpTo(Menu, MaxOther) : content' = [content EXCEPT ![S.cur.f] = r]
+          /\ \E r \in SeqsUpTo(OtherMenu, MaxOther) : content' = [content EXCEPT ![S.cur.f] = r]
           /\ chosen' = chosen \cup {S.cur.f}
           /\ UNCHANGED S
 Step == /\ S.res = "run" /\ S.cur.f \in chosen
